@@ -7,6 +7,7 @@
 import CM.Model.Loopback
 import CM.Proofs.StackLemmas
 import CM.Proofs.BagReverse
+import CM.Proofs.LoopbackDen
 namespace CM.C10
 open CM
 
@@ -208,5 +209,64 @@ only `a` comes out -/
 example :
     (BCtx.chain (.bag [] [] .all) (.bag [⟨7, "a"⟩] [⟨8, "a"⟩] (.fin []))).backNames ["a", "b"] = some ["a"] := by
   decide +kernel
+
+/-! ## Node level: what the decorated graph computes (`CM.Proofs.LoopbackDen`) -/
+
+/-- rule 2 of `normalize_bag` holds for the decorated graph: every node has at most one incoming edge -/
+theorem loopback_single (b fb r : Bag) (h : b.loopbackWith fb = .ok r) : SingleIncoming r.edges := by
+  simp only [Bag.loopbackWith, bind, Except.bind] at h
+  split at h
+  · cases h
+  · split at h
+    · cases h
+    · obtain ⟨rfl, hc⟩ := mkBag_ok h
+      exact hc.single
+
+/-- **Node level: the forward pass and `f` are not disturbed by the decoration.**  In the decorated graph every node that is not
+downstream of an edge the backward pass added computes exactly what it computes in `pipeline >> f` (`connectBags b fb`): the
+forward fields through the layers in order, then `f` (C02 `node_connect_step` says what those are). -/
+theorem node_loopback_forward_unchanged (b fb r : Bag) (h : b.loopbackWith fb = .ok r) :
+    ∃ state es, connectBags b fb = .ok state ∧ r.edges = state.edges ++ es ∧
+      ∀ n, ¬ Down r.edges (es.map (·.out)) n → ∀ t, BDen r n t ↔ BDen state n t := by
+  obtain ⟨state, outs, es, opt, nx, hst, _, _, he, hi⟩ := loopback_shape b fb r h
+  exact ⟨state, es, hst, he, fun n hn t => den_extension hi he hn t⟩
+
+/-- **Node level: the inverses run in reverse order, each on what the later one returned.**  `Feeds ctx outs next n o`: reversing
+the chain's context on the outputs of `f`, the backward input `n` of a layer is fed by `o` - for the LAST layer the output of `f`
+of the same name, for an earlier layer the node of that name the later layers' backward pass returned (the later layer's inverse
+output, or the pass-through of a name it inherits).  In the decorated graph `n` computes exactly what `o` computes: so an inverse
+field (a function edge over backward inputs and the layer's own forward parameters, `C02.node_factory_field`) is applied to the
+results of the inverses of the layers after it. -/
+theorem node_loopback_backward_input (b fb r : Bag) (h : b.loopbackWith fb = .ok r) :
+    ∃ state, connectBags b fb = .ok state ∧
+      ∀ n o, Feeds state.ctx state.outputs state.next n o → n ∉ r.inputs → ∀ t, BDen r n t ↔ BDen r o t := by
+  obtain ⟨state, outs, es, opt, nx, hst, hrev, _, he, _⟩ := loopback_shape b fb r h
+  refine ⟨state, hst, fun n o hf hn t => ?_⟩
+  have hmem : identityEdge o n ∈ r.edges := by
+    rw [he]; exact List.mem_append.2 (Or.inr (reverse_feeds _ _ _ _ _ _ _ hrev n o hf))
+  exact den_identity_edge (loopback_single b fb r h) hmem hn t
+
+/-- the last layer's backward inputs compute what `f` returns under their names (when `f`'s outputs are not downstream of the
+backward pass, which holds for containers built by the factory: backward inputs are read by inverse edges only) -/
+theorem node_loopback_last_layer_input (b fb r : Bag) (h : b.loopbackWith fb = .ok r) :
+    ∃ state es, connectBags b fb = .ok state ∧ r.edges = state.edges ++ es ∧
+      ∀ n o, Feeds state.ctx state.outputs state.next n o → n ∉ r.inputs → ¬ Down r.edges (es.map (·.out)) o →
+        ∀ t, BDen r n t ↔ BDen state o t := by
+  obtain ⟨state, outs, es, opt, nx, hst, hrev, _, he, hi⟩ := loopback_shape b fb r h
+  refine ⟨state, es, hst, he, fun n o hf hn hd t => ?_⟩
+  have hmem : identityEdge o n ∈ r.edges := by
+    rw [he]; exact List.mem_append.2 (Or.inr (reverse_feeds _ _ _ _ _ _ _ hrev n o hf))
+  rw [den_identity_edge (loopback_single b fb r h) hmem hn t]
+  exact den_extension hi he hd t
+
+/-- non-vacuity (a test): two layers, the later one inverting `a`: reversing on what `f` returned (node 20), the later layer's backward
+input 7 is fed by node 20 and the earlier layer's backward input 3 by the later layer's inverse output 8 -/
+example :
+    Feeds (.chain (.bag [⟨3, "a"⟩] [⟨4, "a"⟩] (.fin [])) (.bag [⟨7, "a"⟩] [⟨8, "a"⟩] (.fin []))) [⟨20, "a"⟩] 30 ⟨7, "a"⟩ ⟨20, "a"⟩ ∧
+    Feeds (.chain (.bag [⟨3, "a"⟩] [⟨4, "a"⟩] (.fin [])) (.bag [⟨7, "a"⟩] [⟨8, "a"⟩] (.fin []))) [⟨20, "a"⟩] 30 ⟨3, "a"⟩ ⟨8, "a"⟩ := by
+  constructor
+  · exact .later (.bag (by simp) (by decide +kernel))
+  · exact .earlier (o1 := [⟨8, "a"⟩]) (e1 := [identityEdge ⟨20, "a"⟩ ⟨7, "a"⟩]) (p1 := []) (n1 := 30) (by rfl)
+      (.bag (by simp) (by decide +kernel))
 
 end CM.C10
